@@ -23,7 +23,7 @@ EXPLANATION = ('An abstract evaluation of the comparison-only function RuleEntry
                'on every opcode handler bound for constraint code, monotonicity of the pass index, and the size expression that '
                'wipes recycled slots.  The matching / precedence OUTPUT of rule programs against a reference semantics is a '
                'run-time fact and is not decided.')
-FLOORS = {'PRECEDENCE': 4, 'FIRSTPASSING': 1, 'PURECONSTRAINT': 30, 'PASSORDER': 1, 'RECYCLECLEAN': 3}
+FLOORS = {'PRECEDENCE': 6, 'FIRSTPASSING': 1, 'PURECONSTRAINT': 30, 'PASSORDER': 2, 'RECYCLECLEAN': 3}
 
 MUTATORS = {'graphite2::Slot::setGlyph', 'graphite2::Slot::attachTo', 'graphite2::Slot::child', 'graphite2::Slot::sibling', 'graphite2::Slot::removeChild',
             'graphite2::Slot::setAttr', 'graphite2::Segment::setFeature', 'graphite2::Segment::newSlot', 'graphite2::Segment::freeSlot',
@@ -377,13 +377,108 @@ def recycleclean(run, fx, vm=None):
                 if what == 'memset' else 'the copy carries only part of the user attributes of its source, and constraints that test the others select the wrong rule'))
 
 
+def sortedlists(run, fx):
+    """PRECEDENCE needs every success state's rule list to BE in precedence order: runFSM / accumulate_rules merge lists that are
+    assumed sorted, findNDoRule takes the first passing entry.  Pass::readStates sorts each list with qsort(.., cmpRuleEntry): the
+    only thing allowed between the store of the list into the state and the sort is the null test of an empty list."""
+    fn = fx.one('graphite2::Pass::readStates')
+    qs = [e for e in calls_in(fn, 'qsort')]
+    inst = 'every state\'s rule list is sorted at load'
+    if len(qs) != 1:
+        run.broken('PRECEDENCE', inst, 'expected one qsort call in Pass::readStates, found %d' % len(qs), fn.where())
+        return
+    q = qs[0]
+    cmpa = fn.render(fn.strip_all_casts(q['args'][3])) if len(q['args']) == 4 else ''
+    if 'cmpRuleEntry' not in cmpa:
+        run.violated('PRECEDENCE', inst, fn.loc(q), 'the rule lists are sorted with %s, not with cmpRuleEntry' % cmpa)
+        return
+    # the store of the list start into the state (State::rules): unconditional in the per-state loop
+    st = [e for _, e in fn.elements() if e['k'] == 'BinaryOperator' and e['op'] == '=' and fn.strip(e['c'][0]).get('d') == 'graphite2::State::rules']
+    if len(st) != 1:
+        run.broken('PRECEDENCE', inst, 'the store into State::rules was not found', fn.where())
+        return
+    base = {f[:3] for f in dom.facts_at(fn, st[0]['i'])}
+    extra = [f[:3] for f in dom.facts_at(fn, q['i']) if f[:3] not in base]
+    begin = fn.render(fn.strip_all_casts(q['args'][0]))
+    def harmless(f):
+        a, op, b = f
+        if a == begin and op == '!=' and b == '0':
+            return True                                   # qsort(NULL, 0, ..) is undefined: the null guard
+        if op in ('!=', '>') and b in ('0',) and a.replace(' ', '') in ('(end-begin)', 'end-begin'):
+            return True                                   # non-empty
+        if (a, op, b) in ((begin, '!=', 'end'), ('end', '!=', begin), ('end', '>', begin), (begin, '<', 'end')):
+            return True
+        return False
+    bad = [f for f in extra if not harmless(f)]
+    if bad:
+        run.violated('PRECEDENCE', inst, fn.loc(q), 'the sort of a state\'s rule list is skipped unless %s: lists that do not meet this are used in the order the font stores them, '
+                     'so "longest sort key first, then earliest rule" no longer holds for them' % (bad,))
+    else:
+        run.held('PRECEDENCE', inst, fn.loc(q), 'qsort(%s, .., cmpRuleEntry) guarded only by %s' % (begin, extra or 'nothing'))
+
+
+def passbitsfresh(run, fx):
+    """PASSORDER: "passes run over the previous pass's output".  A pass is skipped when the segment's pass bits say none of its glyphs
+    has rules in it; Slot::setGlyph merges the bits of every glyph a pass produces, so the bits must be READ INSIDE the pass loop
+    (per pass), not hoisted in front of it."""
+    from .util import loop_bodies
+    fn = fx.one('graphite2::Silf::runGraphite')
+    pb = calls_in(fn, 'graphite2::Segment::passBits')
+    rg = calls_in(fn, 'graphite2::Pass::runGraphite')
+    inst = 'skip-pass bits are read per pass'
+    if not pb or not rg:
+        run.broken('PASSORDER', inst, 'Silf::runGraphite: passBits() / Pass::runGraphite call not found', fn.where())
+        return
+    lb = loop_bodies(fn)
+    body = set()
+    for h, blocks in lb.items():
+        if fn.block_of[rg[0]['i']] in blocks:
+            body |= blocks if not body else set()
+            body = blocks if not body or len(blocks) < len(body) else body
+    if not body:
+        run.broken('PASSORDER', inst, 'the pass loop around Pass::runGraphite was not found', fn.where())
+        return
+    outside = [e for e in pb if fn.block_of[e['i']] not in body]
+    if outside:
+        run.violated('PASSORDER', inst, fn.loc(outside[0]), 'Segment::passBits() is read outside the pass loop: the bits change whenever a pass produces a new glyph (Slot::setGlyph -> '
+                     'mergePassBits), so a later pass is skipped on stale bits although an earlier pass just created a glyph it has rules for')
+    else:
+        run.held('PASSORDER', inst, fn.loc(pb[0]), '%d read(s) of passBits(), all inside the loop over the passes' % len(pb))
+
+
+def attrsign(run, fx):
+    """glyph attributes are signed 16-bit quantities in rule code (constraints such as kern < 0, max(attr, 0)): the one place where the
+    unsigned table cell (sparse::mapped_type) becomes signed is the return type of Segment::glyphAttr."""
+    from .cfg import int_type
+    fn = fx.one('graphite2::Segment::glyphAttr')
+    t = int_type(fn.f.get('ret'))
+    inst = 'glyph attributes reach the VM sign-extended'
+    if t is None:
+        run.broken('PRECEDENCE', inst, 'Segment::glyphAttr returns %s (not an integer type)' % fn.f.get('ret'), fn.where())
+    elif t[1] and t[0] == 16:
+        run.held('PRECEDENCE', inst, fn.where(), 'Segment::glyphAttr returns a signed 16-bit value', False)
+    elif t[1] and t[0] > 16:
+        # wider signed return: the narrowing to int16 must be explicit in the returned expression
+        casts = [x for _, e in fn.elements() if e['k'] == 'ReturnStmt' for x in fn.walk(e['c'][0]) if x['k'].endswith('CastExpr') and int_type(x.get('t')) == (16, True)]
+        if casts:
+            run.held('PRECEDENCE', inst, fn.where(), 'returns a wider signed type through an explicit int16 conversion', False)
+        else:
+            run.violated('PRECEDENCE', inst, fn.where(), 'Segment::glyphAttr returns %s without converting the unsigned table cell through int16: negative glyph attributes reach the stack as 65531' % fn.f.get('ret'))
+    else:
+        run.violated('PRECEDENCE', inst, fn.where(), 'Segment::glyphAttr returns the unsigned type %s: a glyph attribute of -5 reaches the rule code as 65531, so comparisons, min/max and '
+                     'division in constraints and actions give the wrong result' % fn.f.get('ret'))
+
+
 def run(run):
     vm = R.get_vm(run)
     fx = vm.fx
     precedence(run, fx)
+    sortedlists(run, fx)
+    attrsign(run, fx)
     firstpassing(run, fx)
     pureconstraint(run, vm)
     passorder(run, fx)
+    passbitsfresh(run, fx)
     from . import c19
     c19.dirflag(run, fx, 'PASSORDER')       # the reversed-stream flag that decides whether a pass re-reverses stays in step with the stream
     recycleclean(run, fx, vm)
